@@ -84,6 +84,15 @@ impl Domain for FaultDomain {
                 }
             }
             p.applied_but_failed = s.chance(1, 3);
+            // drawn last so that the cases generated before this class existed stay the same
+            if seq.layers.len() > 1 && s.chance(1, 3) {
+                let n = 1 + s.pick(3);
+                for _ in 0..n {
+                    p.back_fail_ordinals.push(s.pick(60) as u64);
+                }
+                p.back_fail_ordinals.sort_unstable();
+                p.back_fail_ordinals.dedup();
+            }
             FaultMode::Plan(p)
         };
         serde_json::to_value(FaultCase { seq, mode }).unwrap()
@@ -121,6 +130,7 @@ impl Domain for FaultDomain {
         add(st.failed_data > 0, "failed_data_write");
         add(st.failed_read > 0, "failed_read");
         add(st.failed_punch > 0, "failed_or_unsupported_punch");
+        add(st.failed_backing > 0, "failed_backing_chain_read");
         add(st.calls_err > 0, "call_returned_err");
         add(st.calls_absorbed > 0, "fault_absorbed_call_ok");
         add(st.open_failed > 0, "open_failed_by_fault");
